@@ -364,16 +364,69 @@ def random_program(rng):
     return '\n'.join(lines) + '\n'
 
 
+# assignment / read units over every kind of variable (global int / string, entry int / string, sort.key$), with the default
+# values 0 and "" in the pool: "assign a value, assign the default, read" needs five units
+ASSIGN_UNITS = ([('#%d' % n, [], [I]) for n in (0, 3, -1)] + [('"%s"' % x, [], [S]) for x in ('', 'x')] +
+                [("'gi :=", [I], []), ('gi', [], [I]), ("'gs :=", [S], []), ('gs', [], [S]),
+                 ("'count :=", [I], []), ('count', [], [I]), ("'label :=", [S], []), ('label', [], [S]),
+                 ("'sort.key$ :=", [S], []), ('sort.key$', [], [S])])
+
+
+def assign_sequences(nassign):
+    """Up to `nassign` assignments (every variable kind x every value of its type, defaults included) followed by one read."""
+    ivars, svars = ['gi', 'count'], ['gs', 'label', 'sort.key$']
+    assigns = (["#%d '%s :=" % (n, v) for v in ivars for n in (0, 3, -1)] + ['"%s" \'%s :=' % (x, v) for v in svars for x in ('', 'x')])
+    import itertools
+    for k in range(nassign + 1):
+        for seq in itertools.product(assigns, repeat=k):
+            for v in ivars + svars:
+                yield list(seq) + [v], [I if v in ivars else S]
+
+
+def multipass_program(rng):
+    """Several ITERATE / REVERSE passes that set, selectively reset (to the default values too) and then show entry and global variables."""
+    iv = lambda: '#%d' % rng.choice([0, 0, 3, -1, 7])   # noqa: E731
+    sv = lambda: '"%s"' % rng.choice(['', '', 'x', 'Yz'])   # noqa: E731
+    lines = ['ENTRY { title author year note } { n m } { lab tag }', 'INTEGERS { i }', 'STRINGS { s }']
+    fns = []
+    for k in range(rng.randint(2, 4)):
+        body = []
+        for _ in range(rng.randint(1, 4)):
+            body.append(rng.choice(["%s 'n :=" % iv(), "%s 'm :=" % iv(), "%s 'lab :=" % sv(), "%s 'tag :=" % sv(), "%s 'i :=" % iv(), "%s 's :=" % sv(),
+                                    "%s 'sort.key$ :=" % sv(), "n #1 + 'n :=", 'lab "+" * \'lab :=', "n 'm :=", "tag 'lab :="]))
+        body = ' '.join(body)
+        if rng.random() < 0.6:
+            body = 'cite$ "%s" = { %s } \'skip$ if$' % (rng.choice(['Knuth84', 'lamport:86', 'parent', 'unused']), body)
+        lines.append('FUNCTION {f%d} { %s }' % (k, body))
+        fns.append('f%d' % k)
+    lines.append('FUNCTION {show} { cite$ ":" * n int.to.str$ * ":" * m int.to.str$ * ":" * lab * ":" * tag * ":" * sort.key$ * ":" * i int.to.str$ * ":" * s * write$ newline$ }')
+    lines.append('READ')
+    for f in fns:
+        lines.append('%s {%s}' % (rng.choice(['ITERATE', 'ITERATE', 'REVERSE']), f))
+        if rng.random() < 0.3:
+            lines.append('SORT')
+    lines.append('ITERATE {show}')
+    return '\n'.join(lines) + '\n'
+
+
 def gen_cases(tier, rng, info):
     cases = []
     maxlen = 2 if tier == 'quick' else 3
+    na = 0
+    for body, types in assign_sequences(2 if tier == 'quick' else 3):
+        cases.append(mk(' '.join(body), types, 'assign%d' % (len(body) - 1)))
+        na += 1
+    for _ in range(600 if tier == 'quick' else 10000):
+        cases.append({'op': 'bstrun', 'bst': multipass_program(rng), 'bibs': [BIB], 'citations': rng.choice([CITES, ['*']]),
+                      'min_crossrefs': 2, 'family': 'multipass', 'welltyped': True})
     n = 0
     seqs = list(typed_sequences(maxlen))
     for body, types in seqs:
         cases.append(mk(' '.join(body), types, 'straight%d' % len(body)))
         n += 1
     info['exhaustive'] = True
-    info['scope'] = 'all %d well-typed unit sequences of length <= %d over %d typed units (operand pool %r, %r)' % (n, maxlen, len(UNITS), INTS, STRS)
+    info['scope'] = ('all %d well-typed unit sequences of length <= %d over %d typed units (operand pool %r, %r); all %d assign/read sequences '
+                     'over every variable kind with the default values in the pool' % (n, maxlen, len(UNITS), INTS, STRS, na))
     if tier == 'quick':
         three = list(typed_sequences(3))
         for body, types in rng.sample(three, min(2500, len(three))):
